@@ -534,9 +534,28 @@ func keyLiterals(fn *ssa.Function, keyT types.Type) (lits []*keyRef) {
 	return
 }
 
-func keyValueOf(k *keyRef) ssa.Value {
-	if c, ok := unspill(k.typ).(*ssa.Call); ok && isFunc(calleeFunc(c), "reflect", "Value", "Type") {
-		return c.Call.Args[0]
+// keyValuesOf: the reflect.Values whose Type() is stored as the key's type component — followed
+// through local struct fields and, when the key is built in a helper, through the helper's
+// parameter to every caller.  nil if some source is not V.Type().
+func keyValuesOf(typ ssa.Value, depth int) []ssa.Value {
+	t := origin(typ)
+	if c, ok := t.(*ssa.Call); ok && isFunc(calleeFunc(c), "reflect", "Value", "Type") {
+		return []ssa.Value{origin(c.Call.Args[0])}
+	}
+	if p, field, ok := paramOrigin(t); ok && depth < 3 {
+		cvs, ok := callerValues(p, field)
+		if !ok {
+			return nil
+		}
+		var out []ssa.Value
+		for _, cv := range cvs {
+			vs := keyValuesOf(cv.val, depth+1)
+			if vs == nil {
+				return nil
+			}
+			out = append(out, vs...)
+		}
+		return out
 	}
 	return nil
 }
@@ -544,53 +563,15 @@ func keyValueOf(k *keyRef) ssa.Value {
 // checkKeyedAccess — R20.5 and R20.6, anchored at the functions that build a key literal and at
 // every use of a cached index, wherever a refactoring has put them.
 func (w *World) checkKeyedAccess(r *Report, keyT types.Type) {
-	keyValIn := map[*ssa.Function]ssa.Value{}
-	nLitFns := 0
-	for _, fn := range w.pkgFuncs() {
-		lits := keyLiterals(fn, keyT)
-		if len(lits) == 0 {
-			continue
-		}
-		nLitFns++
-		k := lits[0]
-		keyVal := keyValueOf(k)
-		if keyVal == nil {
-			r.bad("R20.5", ssaName(fn), "key.typ is the dynamic type of the accessed value", w.posOf(k.typ.Pos()), "the cache key's type is not obtained by Type() from a reflect.Value")
-			continue
-		}
-		keyValIn[fn] = keyVal
-		// R20.5: field access through the same V
-		nAcc := 0
-		badAcc := ""
-		instrsOf(fn, func(in ssa.Instruction) {
-			c, ok := in.(*ssa.Call)
-			if !ok {
-				return
+	var keyVals []ssa.Value
+	isKeyVal := func(v ssa.Value) bool {
+		for _, kv := range keyVals {
+			if sameReflect(v, kv) {
+				return true
 			}
-			f := calleeFunc(c)
-			if f == nil || f.Pkg() == nil || f.Pkg().Path() != "reflect" {
-				return
-			}
-			switch f.Name() {
-			case "Field", "FieldByIndex", "FieldByIndexErr", "FieldByName":
-				if !isNamed(c.Call.Args[0].Type(), "reflect", "Value") {
-					return
-				}
-				nAcc++
-				if !sameValue(c.Call.Args[0], keyVal) {
-					badAcc = w.posOf(in.Pos())
-				}
-			}
-		})
-		if nAcc > 0 && badAcc == "" {
-			r.ok("R20.5", ssaName(fn), "key.typ is the dynamic type of the accessed value", w.posOf(k.typ.Pos()), fmt.Sprintf("%d field access(es) go through the reflect.Value whose Type() is the key", nAcc), true)
-		} else if badAcc != "" {
-			r.bad("R20.5", ssaName(fn), "key.typ is the dynamic type of the accessed value", badAcc, "a field is read from a reflect.Value other than the one whose type keys the cache (index computed for one type applied to another)")
 		}
+		return false
 	}
-	r.floor("functions building a cache key from a reflect.Value", nLitFns, 1)
-
-	// R20.6: a cached method index is applied to the method set it was computed for
 	isNamedField := func(v ssa.Value, name string) bool {
 		switch x := v.(type) {
 		case *ssa.UnOp:
@@ -605,6 +586,64 @@ func (w *World) checkKeyedAccess(r *Report, keyT types.Type) {
 		}
 		return false
 	}
+	nLitFns := 0
+	litFn := map[*ssa.Function]*keyRef{}
+	for _, fn := range w.pkgFuncs() {
+		lits := keyLiterals(fn, keyT)
+		if len(lits) == 0 {
+			continue
+		}
+		nLitFns++
+		k := lits[0]
+		vs := keyValuesOf(k.typ, 0)
+		if vs == nil {
+			r.bad("R20.5", ssaName(fn), "key.typ is the dynamic type of the accessed value", w.posOf(k.typ.Pos()), "the cache key's type is not obtained by Type() from a reflect.Value")
+			continue
+		}
+		litFn[fn] = k
+		keyVals = append(keyVals, vs...)
+	}
+	// R20.5: every field access in a key-building function, and every access by a cached field
+	// index anywhere, goes through a reflect.Value whose Type() keys the cache
+	nAcc := 0
+	for _, fn := range w.pkgFuncs() {
+		k := litFn[fn]
+		n, badAcc := 0, ""
+		instrsOf(fn, func(in ssa.Instruction) {
+			c, ok := in.(*ssa.Call)
+			if !ok {
+				return
+			}
+			f := calleeFunc(c)
+			if f == nil || f.Pkg() == nil || f.Pkg().Path() != "reflect" {
+				return
+			}
+			switch f.Name() {
+			case "Field", "FieldByIndex", "FieldByIndexErr", "FieldByName":
+				if !isNamed(c.Call.Args[0].Type(), "reflect", "Value") {
+					return
+				}
+				byCachedIndex := len(c.Call.Args) > 1 && isNamedField(unspill(c.Call.Args[1]), "fieldIndex")
+				if k == nil && !byCachedIndex {
+					return
+				}
+				n++
+				if !isKeyVal(c.Call.Args[0]) {
+					badAcc = w.posOf(in.Pos())
+				}
+			}
+		})
+		nAcc += n
+		if n > 0 && badAcc == "" {
+			r.ok("R20.5", ssaName(fn), "key.typ is the dynamic type of the accessed value", w.posOf(fn.Pos()), fmt.Sprintf("%d field access(es) go through the reflect.Value whose Type() is the key", n), true)
+		} else if badAcc != "" {
+			r.bad("R20.5", ssaName(fn), "key.typ is the dynamic type of the accessed value", badAcc, "a field is read from a reflect.Value other than the one whose type keys the cache (index computed for one type applied to another)")
+		}
+	}
+	r.floor("functions building a cache key from a reflect.Value", nLitFns, 1)
+	r.floor("field accesses through the keyed reflect.Value", nAcc, 1)
+
+	// R20.6: a cached method index is applied to the method set it was computed for
 	nMeth := 0
 	for _, fn := range w.pkgFuncs() {
 		flagFlow := func(want bool) *boolFlow {
@@ -648,23 +687,13 @@ func (w *World) checkKeyedAccess(r *Report, keyT types.Type) {
 				}
 			}
 			// is the receiver the value whose type keys the cache?
-			isKeyValue := false
-			if kv := keyValIn[fn]; kv != nil && sameReflect(recv, kv) {
-				isKeyValue = true
-			} else if p, ok := recv.(*ssa.Parameter); ok && keyValIn[fn] == nil {
-				// a helper: at every call site the argument is the caller's key value
-				idx := -1
-				for i, fp := range fn.Params {
-					if fp == p {
-						idx = i
-					}
-				}
-				if node := w.callgraph().Nodes[fn]; node != nil && idx >= 0 && len(node.In) > 0 {
+			isKeyValue := isKeyVal(recv)
+			if p, field, ok := paramOrigin(recv); ok && !isKeyValue {
+				// a helper with several call sites: at each the argument is a key value
+				if cvs, ok := callerValues(p, field); ok && len(cvs) > 0 {
 					isKeyValue = true
-					for _, e := range node.In {
-						cc := e.Site.Common()
-						kv := keyValIn[e.Caller.Func]
-						if cc.IsInvoke() || cc.StaticCallee() != fn || idx >= len(cc.Args) || kv == nil || !sameReflect(unspill(cc.Args[idx]), kv) {
+					for _, cv := range cvs {
+						if !isKeyVal(cv.val) {
 							isKeyValue = false
 						}
 					}
